@@ -53,6 +53,16 @@ def observe(u):
         facts.add("define")
     except pint.UndefinedUnitError:
         pass
+    # ... and every way of asking knows the unit exactly where it was defined (base-unit questions have their own table)
+    try:
+        u.get_base_units("new1")
+        via_base = True
+    except pint.UndefinedUnitError:
+        via_base = False
+    except Exception as ex:
+        via_base = "EXC:" + type(ex).__name__
+    if via_base != ("define" in facts):
+        facts.add("define-seen-by-get_base_units:%s" % via_base)
     # the case-insensitive index is the registry's own as well: "E" is the new unit where it was defined, the old "e" elsewhere
     try:
         twin = (u.get_name("E", case_sensitive=False), u.get_name("e", case_sensitive=False))
